@@ -10,7 +10,7 @@ import time
 from mc.core import Space, HarnessError, raised, VERIF, REPO
 
 ID = "C20"
-RULE = ("operation alphabet = one representative call of every public function/method (139 operations incl. randomised calls under a fixed NumPy "
+RULE = ("operation alphabet = one representative call of every public function/method (143 operations incl. randomised calls under a fixed NumPy "
         "seed and calls that raise); reference = each operation alone in a process forked from the pristine import state (cross-checked against "
         "truly fresh interpreters); explored: every single operation, every ordered pair (no state abstraction), triples over the stateful "
         "operations, and a BFS over canonical module states (data globals, __defaults__/__kwdefaults__, class attributes) where every operation "
@@ -245,6 +245,10 @@ def _judge(acc, hist, recs, state_before_first=None):
             acc.cls("history-after-raising-call")
         if any(isinstance(v, dict) for v in ops()[n][0]()[2].values()) if False else ("kws" in n or "kwargs" in n or "palette" in n):
             acc.cls("option-dict-argument")
+        if n.startswith("inv-") and rec["result"] != ["list", "invariant", True]:
+            acc.fail("purity/pyplot-current-axes-switched/%s" % n, ("hist", tuple(hist[:i + 1])), ["list", "invariant", True], rec["result"],
+                     note="a plotting call with explicit axes changed pyplot's current figure / axes (or drew elsewhere): a later ax=None call draws somewhere else")
+            return False
         if not rec["args_same"]:
             acc.fail("purity/argument-modified/%s" % n, ("hist", tuple(hist[:i + 1])), rec.get("args_before"), rec.get("args_after"))
             return False
